@@ -616,6 +616,44 @@ macro_rules! dispatch_kind {
     };
 }
 
+
+// ── probes: fixed scenarios of known findings, run on the real code only ──────
+
+/// `hexane.probe <name>` → `done` (+ `! C34 …` when the implementation misbehaves); the model
+/// answers `done` too.  These keep the minimal inputs of the findings in every trace.
+fn probe(name: &str) -> Vec<String> {
+    let mut out = vec!["done".to_string()];
+    let mut check = |what: &str, r: std::thread::Result<Result<(), String>>| match r {
+        Ok(Ok(())) => {}
+        Ok(Err(m)) => out.push(format!("! C34 {}: {}", what, m)),
+        Err(e) => out.push(format!("! C34 {} panicked: {}", what, panic_msg(e))),
+    };
+    match name {
+        // find_by_value(i64::MAX) computes `v + 1`
+        "delta-find-max" => check("DeltaColumn<u64> [2^63-1] find_by_value(2^63-1)", catch_unwind(|| {
+            let c = DeltaColumn::<u64>::from_values(vec![i64::MAX as u64]);
+            let got: Vec<usize> = c.find_by_value(i64::MAX as u64).collect();
+            if got == vec![0] { Ok(()) } else { Err(format!("found {:?}, expected [0]", got)) }
+        })),
+        // SlabScan computes `hi - a` / `lo - a` in i64 on a column spanning the documented 2^63-wide window
+        "delta-find-window" => check("DeltaColumn<i64> [-2^62, 2^62-1] find_by_value(2^62-1)", catch_unwind(|| {
+            let c = DeltaColumn::<i64>::from_values(vec![-(1i64 << 62), (1i64 << 62) - 1]);
+            let got: Vec<usize> = c.find_by_value((1i64 << 62) - 1).collect();
+            if got == vec![1] { Ok(()) } else { Err(format!("found {:?}, expected [1]", got)) }
+        })),
+        // an in-domain edit program on DeltaColumn<usize> (values < 2^63) that panics with
+        // "delta value overflows i64" inside `compute_slab_agg` (minimised from seed 2)
+        "delta-edit-overflow" => check("DeltaColumn<usize> in-domain edit program", catch_unwind(|| {
+            let r = run_prog::<Delta<usize>>(&DELTA_EDIT_OVERFLOW.split(' ').collect::<Vec<_>>());
+            if r.iter().any(|l| l == "panic") { Err(r.last().cloned().unwrap_or_default()) } else { Ok(()) }
+        })),
+        _ => out.push("! C34 unknown probe".into()),
+    }
+    out
+}
+
+const DELTA_EDIT_OVERFLOW: &str = "s:0:0:1,9223372036854775807,971,972,27,974,63,128,5437420876846296907,978,33,287,7989202308766754477,64,983,6581483942672925815,674178505913579991,127,128,6068062953369543553,9223372036854775807,2,286,1015,2276432433152327253,7427205563052754395,1,924541592386196537,286,9223372036854775807,1022,1023,64,5333659188971667789,103,1027,86,1,258,1032,1,2,8402035183552984946,5080023621381221114,0,1038,215,63,195,44,1043,1044,273,1046,41904662330894475,9223372036854775807,0,128,227,750390362253122497,0,2450760116214099786 i:15:2 s:0:0:127,127,127,127,127,127,127,127,127,127,127,127,127,127,127,127,127,127,127,127,127,127,127,127,127,127,127,127,127,127,127,127,127,127,127,127,127,127,127,127,127,127,127,127,127,127,127,127,127,127,127,127,127,127,127,127,127,127,127,127,127,127,127,127,127,127,127,127,127,127,127,127,127,127,127,127,127,127,127,127,127,127,127,127,127,127,127,127,127,127,127,127,127,127,127,127,127,127,127,127,127,127,127,127,127,127,127,127,127,127,127,127,127,127,127,127,127,127,127,127,127,127,127,127,127,127,127,127,127,127,127,127,127,127,127,127,127,127,127,127,127,127,127,127,127,127,127,127,127,127,127,127,127,127,127,127,127,127,127,127,127,127,127,127,127,127,127,127,127,127,127,127,127,127,127,127,127,127,127,127,127,127,127,127,127,127,127,127,127,127,127,127,127,127,127,127,127,127,127,127,127,127 s:202:1:_";
+
 pub fn exec(toks: &[&str]) -> Vec<String> {
     match toks[0] {
         "hexane.prog" => dispatch_kind!(run_prog, toks[1], toks[2], &toks[3..]),
@@ -623,6 +661,7 @@ pub fn exec(toks: &[&str]) -> Vec<String> {
             let bytes = unhx(toks[3]);
             dispatch_kind!(run_load, toks[1], toks[2], &bytes, &toks[4..])
         }
+        "hexane.probe" => probe(toks[1]),
         _ => vec!["unknown-cmd".into()],
     }
 }
@@ -960,7 +999,13 @@ pub fn generate(r: &mut Rng, _opts: &BTreeMap<String, String>, sess: &mut Sessio
     let (bc, bv, bb) = &bi[r.below(bi.len() as u64) as usize];
     exec_line(sess, &format!("hexane.load {} {} {}", bc, bv, hx(bb)), out);
     out.count("load_boundary");
-    // 5. random bytes into a random kind
+    // 5. now and then one of the fixed finding scenarios
+    if r.chance(1, 20) {
+        let p = *r.pick(&["delta-find-max", "delta-find-window", "delta-edit-overflow"]);
+        exec_line(sess, &format!("hexane.probe {}", p), out);
+        out.count("probe");
+    }
+    // 6. random bytes into a random kind
     let n = r.below(16) as usize;
     let raw = r.bytes(n);
     let (ct4, vt4) = *r.pick(KINDS);
